@@ -359,7 +359,8 @@ class World(object):
 
     def _ws_text_under_document(self, p, c):
         kids = c.children if c.t == FR else [c]
-        return p.t == DOC and any(k.t == TX for k in kids) and all(k.t != TX or (k.value or '').strip(' \t\r\n') == '' for k in kids)
+        # (Xerces accepts a Text child of a Document when it is non-empty and consists of white space only)
+        return p.t == DOC and any(k.t == TX for k in kids) and all(k.t != TX or ((k.value or '') != '' and (k.value or '').strip(' \t\r\n') == '') for k in kids)
 
     def insertBefore(self, p, c, ref):
         codes = self._insert_codes(p, c, ref)
